@@ -345,6 +345,10 @@ SUSP_SKELETONS = {
                             "cb_done", "settle", "cb_done", "settle", "sock:ok", "settle", "fin:ok", "settle"] + CB,
     "s-zc-in-error-cb": ["start", "settle", "sock:fail", "settle", "zc:ptr", "settle", "start", "cb_done", "settle", "zc:a", "settle",
                          "sock:ok", "settle", "fin:reset", "settle", "zc:ptr", "cb_done", "settle", "timer", "settle"],
+    # the mDNS listener is still registered from the first failure while the second failure is being reported
+    "s-zc-in-second-error-cb": ["start", "settle", "sock:fail", "settle", "cb_done", "settle", "timer", "settle", "sock:fail", "settle",
+                                "zc:ptr", "settle", "cb_done", "settle", "timer", "settle", "sock:fail", "settle", "zc:a", "settle",
+                                "cb_done", "settle", "timer", "settle", "sock:ok", "settle", "fin:ok", "settle"] + CB,
 }
 
 SKELETONS = {
@@ -376,16 +380,25 @@ class Oracle:
         attempts = outcomes = 0
         stopped_final = False      # stop() has returned, start() was not called since and no earlier start() is still pending
         pending_starts = 0
+        uncounted = None
         prev_snap = None
         for i, (ev, acts, snap) in enumerate(trace):
             f = dict(x.split("=") for x in snap.split())
             if ev == "start":
                 stopped_final = False
                 pending_starts += 1
+            if ev == "stop":
+                uncounted = None       # stop() abandons the failure being reported (it cancels the attempt's task)
             pf0 = dict(x.split("=") for x in prev_snap.split()) if prev_snap is not None else None
             for j, a in enumerate(acts):
                 if a == "attempt":
                     attempts += 1
+                    # "after the n-th consecutive failed attempt": every reported failure is counted before the next
+                    # attempt starts (only stop() may abandon it)
+                    if uncounted is not None:
+                        self.problems.append(("c18:failure-not-counted", i,
+                                              f"a new attempt started although the failure reported at step {uncounted} was never counted"))
+                        uncounted = None
                     # "never while handshaking or connected": the manager's state only leaves READY through on_disconnect
                     # (or stop()), and HANDSHAKING through the attempt's own outcome, both visible earlier in this op
                     if pf0 is not None and pf0["st"] in ("READY", "HANDSHAKING") and not any(
@@ -409,7 +422,9 @@ class Oracle:
                             self.problems.append(("c18:no-immediate-retry", i, f"unexpected disconnect not followed by an immediate attempt: {rest}"))
                 elif a.startswith("on_connect_error"):
                     outcomes += 1
+                    uncounted = i
                 elif a.startswith("fail_counted"):
+                    uncounted = None
                     # the failure is counted when on_connect_error has returned; the retry timer follows at once
                     fails = 100 if a.endswith("auth") else fails + 1
                     want = min(round(1.8 ** min(fails, 10)), 60) if fails < 100 else 60
